@@ -12,6 +12,7 @@ import (
 	"strings"
 	"sync"
 	"testing"
+	"testing/synctest"
 	"time"
 
 	"github.com/IBM/TSS/mpc/ps"
@@ -492,7 +493,158 @@ func factory(k cell) (func(id uint16) tss.KeyGenerator, codec) {
 	return blsFactory(), blsCodec{}
 }
 
+// directStrategies run on backends wired to each other directly (no orchestrator, no reliable
+// broadcast): what the backends' own OnMsg rules ("first value per peer wins") have to guarantee.
+var directStrategies = []string{
+	"D-honest",
+	"D-recommit-after-reveals", "D-recommit-after-reveals-fast",
+	"D-duplicate-share-different", "D-duplicate-commit-different", "D-duplicate-reveal-different",
+}
+
+// runDirect: FIFO delivery between real backend instances; the deviator is a real instance whose
+// output passes through the strategy.
+func runDirect(c *harness.C, k cell) *out {
+	o := &out{res: map[uint16]*scen.Result{}, proxies: map[uint16]*proxy{}}
+	rec := c.Bubble(func() {
+		members := ids(k.NN)
+		mk, cd := factory(k)
+		type dpkt struct {
+			from, to uint16
+			msg      []byte
+			bc       bool
+		}
+		var mu, pmu sync.Mutex
+		var q []dpkt
+		inst := map[uint16]tss.KeyGenerator{}
+		honestReveal := map[uint16][]byte{}
+		push := func(front bool, from uint16, msg []byte, bc bool, to uint16) {
+			var add []dpkt
+			for _, dst := range members {
+				if dst == from || (!bc && dst != to) {
+					continue
+				}
+				add = append(add, dpkt{from, dst, append([]byte(nil), msg...), bc})
+			}
+			if front {
+				q = append(add, q...)
+			} else {
+				q = append(q, add...)
+			}
+		}
+		s := k.Strategy
+		for _, id := range members {
+			id := id
+			var kg tss.KeyGenerator = mk(id)
+			if id != k.Dev {
+				p := &proxy{KeyGenerator: kg, node: id, mu: &pmu, got: map[uint16]map[byte]int{}, commitsAtReveal: -1}
+				o.proxies[id] = p
+				kg = p
+			}
+			inst[id] = kg
+			kg.Init(members, k.TT, func(msg []byte, bc bool, to uint16) {
+				mu.Lock()
+				defer mu.Unlock()
+				if len(msg) == 0 {
+					push(false, id, msg, bc, to)
+					return
+				}
+				tag, body := msg[0], msg[1:]
+				if id == k.Dev {
+					switch {
+					case strings.HasPrefix(s, "D-recommit") && tag == tagReveal:
+						return // replaced by a reveal that is chosen after the honest reveals
+					case s == "D-duplicate-share-different" && tag == tagShare:
+						push(false, id, msg, bc, to)
+						push(false, id, append([]byte{tagShare}, cd.shareOff(body)...), bc, to)
+						return
+					case s == "D-duplicate-commit-different" && tag == tagCommit:
+						push(false, id, msg, bc, to)
+						h := sha256.Sum256(cd.otherKey(41))
+						push(false, id, append([]byte{tagCommit}, h[:]...), bc, to)
+						return
+					case s == "D-duplicate-reveal-different" && tag == tagReveal:
+						push(false, id, msg, bc, to)
+						push(false, id, append([]byte{tagReveal}, cd.otherKey(41)...), bc, to)
+						return
+					}
+					push(false, id, msg, bc, to)
+					return
+				}
+				push(false, id, msg, bc, to)
+				if strings.HasPrefix(s, "D-recommit") && tag == tagReveal {
+					honestReveal[id] = append([]byte(nil), body...)
+					if len(honestReveal) == k.NN-1 {
+						key := cd.otherKey(41)
+						if k.Backend == "bls" && k.TT == k.NN {
+							key = adaptiveKey(k, honestReveal)
+						}
+						h := sha256.Sum256(key)
+						front := strings.HasSuffix(s, "-fast")
+						if front {
+							push(true, k.Dev, append([]byte{tagReveal}, key...), true, 0)
+							push(true, k.Dev, append([]byte{tagCommit}, h[:]...), true, 0)
+						} else {
+							push(false, k.Dev, append([]byte{tagCommit}, h[:]...), true, 0)
+							push(false, k.Dev, append([]byte{tagReveal}, key...), true, 0)
+						}
+					}
+				}
+			})
+		}
+		var rmu sync.Mutex
+		returned := 0
+		for _, id := range members {
+			id := id
+			go func() {
+				ctx, cancel := context.WithTimeout(context.Background(), deadline)
+				defer cancel()
+				data, err := inst[id].KeyGen(ctx)
+				rmu.Lock()
+				o.res[id] = &scen.Result{Node: id, Data: data, Err: err, Returned: true}
+				returned++
+				rmu.Unlock()
+			}()
+		}
+		for steps := 0; steps < 10000; steps++ {
+			synctest.Wait()
+			mu.Lock()
+			var p *dpkt
+			if len(q) > 0 {
+				x := q[0]
+				q = q[1:]
+				p = &x
+			}
+			mu.Unlock()
+			if p == nil {
+				rmu.Lock()
+				all := returned == len(members)
+				rmu.Unlock()
+				if all {
+					break
+				}
+				time.Sleep(200 * time.Millisecond)
+				continue
+			}
+			o.trace = append(o.trace, fmt.Sprintf("%d>%d %d", p.from, p.to, func() int {
+				if len(p.msg) > 0 {
+					return int(p.msg[0])
+				}
+				return -1
+			}()))
+			inst[p.to].OnMsg(p.msg, p.from, p.bc)
+		}
+		synctest.Wait()
+	})
+	if rec != nil && !harness.IsLeakPanic(rec) {
+		panic(rec)
+	}
+	return o
+}
+
 func run(c *harness.C, k cell, r world.Chooser) *out {
+	if strings.HasPrefix(k.Strategy, "D-") {
+		return runDirect(c, k)
+	}
 	o := &out{res: map[uint16]*scen.Result{}, proxies: map[uint16]*proxy{}}
 	rec := c.Bubble(func() {
 		members := ids(k.NN)
@@ -606,7 +758,10 @@ func oracle(c *harness.C, k cell, o *out) string {
 		}
 	}
 	outcome := fmt.Sprintf("completed=%v", done)
-	if k.Strategy == "honest" && len(done) != k.NN-1 {
+	if strings.HasPrefix(k.Strategy, "D-recommit") && len(done) > 0 {
+		bad("commitment-binds", "c05-replaced-commitment-accepted", fmt.Sprintf("honest parties %v completed although the deviator replaced its commitment after it had seen every honest public key and revealed a key that matches only the replacement (first value per peer must win)", done))
+	}
+	if (k.Strategy == "honest" || k.Strategy == "D-honest") && len(done) != k.NN-1 {
 		bad("control", "c05-honest-control-fails", "with an honest 'deviator' not every party completed")
 	}
 	if len(done) == 0 {
@@ -767,6 +922,11 @@ func gen(c *harness.C) []harness.Case {
 					continue
 				}
 				base := cell{Backend: be, NN: x.n, TT: x.t, Dev: dev}
+				for _, s := range directStrategies {
+					k := base
+					k.Strategy, k.Victims = s, honestOf(base)
+					cases = append(cases, harness.Case{ID: k.id(), Run: func(c *harness.C) { runCell(c, k, 0) }})
+				}
 				for _, s := range strategies {
 					vs := nonEmptySubsets(honestOf(base))
 					if strings.HasPrefix(s, "S10") && (be != "bls" || x.t != x.n) {
